@@ -16,6 +16,9 @@ func (fr *frame) exec(ins ssa.Instruction) {
 	case *ssa.Alloc:
 		c := new(Value)
 		*c = zeroValue(x.Type().(*types.Pointer).Elem())
+		if ex.race != nil {
+			ex.raceFresh(c)
+		}
 		fr.set(x, Ptr{cell: c})
 	case *ssa.BinOp:
 		fr.set(x, ex.binop(x.Op, x.X.Type(), fr.get(x.X), fr.get(x.Y), x.Y.Type()))
@@ -61,7 +64,11 @@ func (fr *frame) exec(ins ssa.Instruction) {
 	case *ssa.MakeInterface:
 		fr.set(x, Iface{T: x.X.Type(), V: copyVal(fr.get(x.X))})
 	case *ssa.MakeMap:
-		fr.set(x, &MapV{index: map[string]*mapEntry{}, kt: x.Type().Underlying().(*types.Map).Key()})
+		nm := &MapV{index: map[string]*mapEntry{}, kt: x.Type().Underlying().(*types.Map).Key()}
+		if ex.race != nil && ex.race.enabled {
+			ex.race.fresh[nm] = ex.race.role
+		}
+		fr.set(x, nm)
 	case *ssa.MakeSlice:
 		fr.set(x, ex.makeSlice(x.Type(), fr.get(x.Len).(*term.T), fr.get(x.Cap).(*term.T)))
 	case *ssa.MapUpdate:
@@ -142,9 +149,15 @@ func (fr *frame) prepareCall(c *ssa.CallCommon) (Value, []Value) {
 
 func (ex *Exec) load(p Ptr) Value {
 	if p.cell != nil {
+		if ex.race != nil {
+			ex.raceRecord(p.cell, false)
+		}
 		return copyVal(*p.cell)
 	}
 	if p.barr != nil {
+		if ex.race != nil {
+			ex.raceRecord(p.barr, false)
+		}
 		return p.barr.read(p.bidx)
 	}
 	ex.rtPanic("invalid memory address or nil pointer dereference")
@@ -153,10 +166,16 @@ func (ex *Exec) load(p Ptr) Value {
 
 func (ex *Exec) store(p Ptr, v Value) {
 	if p.cell != nil {
+		if ex.race != nil {
+			ex.raceRecord(p.cell, true)
+		}
 		storeInto(p.cell, v)
 		return
 	}
 	if p.barr != nil {
+		if ex.race != nil {
+			ex.raceRecord(p.barr, true)
+		}
 		p.barr.write(p.bidx, v.(*term.T))
 		return
 	}
@@ -290,6 +309,9 @@ func (ex *Exec) makeSlice(t types.Type, n, c *term.T) Value {
 	b := &Backing{cells: make([]Value, cn)}
 	for i := range b.cells {
 		b.cells[i] = zeroValue(st.Elem())
+		if ex.race != nil {
+			ex.raceFresh(&b.cells[i])
+		}
 	}
 	return Slice{b: b, off: 0, len: int(nn), cap: int(cn)}
 }
